@@ -30,6 +30,10 @@ EXTENDS Naturals, Sequences, FiniteSets, TLC, Json, SequencesExt
 CONSTANTS MaxLen,        \* largest node-id byte length considered
           Families,      \* subset of {"ids", "names", "san", "decode"}
           LegacyStrip,   \* TRUE: the encoder strips a fixed 2-byte header (the code before the repair)
+          MaxTick,       \* the abstract clock of the "clock" family runs over 0..MaxTick
+          KF_TimeFrozenAtCreation,  \* FALSE: the code.  TRUE: the counter-example variant in which receptor's peer verification reads
+                         \* the clock when the verifier is BUILT, so that a certificate issued later is "not yet valid" for it and
+                         \* one that expires later stays acceptable; it must FAIL ValidityJudgedAtVerification
           DumpFile
 
 \* ---------------------------------------------------------------- DER length sub-model
@@ -143,10 +147,32 @@ DecodeVec(es) ==
    expect |-> [wellformed |-> TRUE, readback |-> DecodeExpect(es), window_valid |-> TRUE, nonames |-> FALSE, san_content |-> 0]]
 DecodeVectors == { DecodeVec(es) : es \in DecodeLists }
 
+\* ---------------------------------------------------------------- building the verifier, issuing and verifying are separate steps
+\* Family "clock": the verifier for an id is built at tick tc, the certificate is issued by the tooling at tick ti >= tc
+\* and verified at every tick from ti on.  Windows: "default" - the tooling's own (NotBefore = the time of signing, one
+\* year); "short" - requested NotAfter half a tick after ti; "late" - requested NotBefore half a tick before ti + 1.
+\* A window is a pair of tick bounds and contains tick t iff nb <= t <= na.
+Ticks == 0..MaxTick
+ClockWindows == {"default", "short", "late"}
+WindowOf(k, ti) == CASE k = "default" -> <<ti, MaxTick + 1>>
+                     [] k = "short"   -> <<0 - 1, ti>>
+                     [] k = "late"    -> <<ti + 1, MaxTick + 1>>
+InWindow(t, w) == w[1] <= t /\ t <= w[2]
+ClockVerdict(tc, t, w) == InWindow(IF KF_TimeFrozenAtCreation THEN tc ELSE t, w)
+ClockVec(ids, k, tc, ti) ==
+  [fam |-> "clock", ids |-> ids, dns |-> "none", padlen |-> 0, ip |-> "none", key |-> "existing", window |-> k, entries |-> <<>>,
+   cands |-> <<>>,
+   clock |-> [tc |-> tc, ti |-> ti, nb |-> WindowOf(k, ti)[1], na |-> WindowOf(k, ti)[2],
+              verify |-> [j \in 1..(MaxTick - ti + 1) |-> [at |-> ti + j - 1, accept |-> ClockVerdict(tc, ti + j - 1, WindowOf(k, ti))]]],
+   expect |-> [wellformed |-> TRUE, readback |-> ReadBack(ids), window_valid |-> TRUE, nonames |-> FALSE, san_content |-> 0]]
+ClockVectors ==
+  UNION { { ClockVec(ids, k, tc, ti) : ids \in {<<ShortA>>, <<Id(113, "ascii", 1)>>}, k \in ClockWindows, tc \in 0..ti } : ti \in Ticks }
+
 AllVectors == (IF "ids" \in Families THEN IdsVectors ELSE {})
               \cup (IF "names" \in Families THEN NamesVectors ELSE {})
               \cup (IF "san" \in Families THEN SanVectors ELSE {})
               \cup (IF "decode" \in Families THEN DecodeVectors ELSE {})
+              \cup (IF "clock" \in Families THEN ClockVectors ELSE {})
 
 \* ---------------------------------------------------------------- state machine: one state per vector
 VARIABLE vec
@@ -175,6 +201,13 @@ VerifyExactly ==
 \* a padded request really sits on the SAN threshold it was built for
 SanOnThreshold == vec.fam = "san" => vec.expect.san_content \in SanTargets
 
+\* a certificate verifies as its requested id exactly while the clock AT THE VERIFICATION is inside its window,
+\* whenever the verifier was built
+IsClock == vec.fam = "clock"
+ValidityJudgedAtVerification ==
+  IsClock => \A j \in 1..Len(vec.clock.verify) :
+     vec.clock.verify[j].accept = InWindow(vec.clock.verify[j].at, <<vec.clock.nb, vec.clock.na>>)
+
 \* ---------------------------------------------------------------- anti-vacuity witnesses
 W_NoLongHeader   == ~(IsReq /\ \E i \in 1..Len(vec.ids) : vec.ids[i].der.seqhdr = 3)
 W_NoFourByteHdr  == ~(IsReq /\ \E i \in 1..Len(vec.ids) : vec.ids[i].der.seqhdr = 4)
@@ -182,6 +215,9 @@ W_NoDuplicates   == ~(IsReq /\ Len(vec.ids) = 3 /\ vec.ids[1].ref = vec.ids[3].r
 W_NoExpired      == ~(IsReq /\ ~vec.expect.window_valid /\ Len(vec.ids) > 0)
 W_NoThreshold128 == ~(vec.fam = "san" /\ vec.expect.san_content = 128)
 W_NoDecodeError  == ~(vec.fam = "decode" /\ vec.expect.readback = "error")
+W_NoIssuedAfterVerifier == ~(IsClock /\ vec.clock.tc < vec.clock.ti /\ vec.window = "default" /\ vec.clock.verify[1].accept)
+W_NoExpiresLater        == ~(IsClock /\ vec.window = "short" /\ Len(vec.clock.verify) >= 2
+                               /\ vec.clock.verify[1].accept /\ ~vec.clock.verify[2].accept)
 W_NoNewKey       == ~(IsReq /\ vec.key = "new" /\ Len(vec.ids) > 0)
 
 \* ---------------------------------------------------------------- export
